@@ -42,7 +42,8 @@ CLAIMED['C06'] = dict(
          'with 1..3 frames: room for the callee\'s max_slots is reserved above the stack top, and when the buffer moves the stack '
          'top and the first slot of EVERY frame are rebased into the new buffer at their old offsets (the moved buffer has a new '
          'identity, so a stale pointer is reported), the callee frame starts argc + 1 below the top and pop_frame drops exactly '
-         'from there. Remaining lowering functions (for / try / launch / class / fun) are not yet machine checked.',
+         'from there; Fiber::new / Fiber::split (launch) for ANY max_slots establish the filled buffer, slot 0, stack top and single '
+         'frame those steps start from and never panic (found and fixed F29: more than 254 slots sliced a static array out of range). Remaining lowering functions (for / try / launch / class / fun) are not yet machine checked.',
     note='Trusted: rustc MIR printer, mirsym, abstract object identities and call summary at resolve_call (vmabs.py), Z3. '
          'Fiber stack primitives and all ops are executed from MIR.',
     ref='§4 C06')
@@ -207,8 +208,10 @@ CLAIMED['C17'] = dict(
          'representation invariant (<= 2 / 3 symbols and exports): insert_symbol, export_symbol, get_exported_symbol_by_name '
          '(a value exactly for exported names, the one stored for that very name), module_instance (fields set exactly per export), '
          'set/get by slot and name, Module::import over module trees of depth 2 / 3. Found and fixed F10 (path[0] at every depth), '
-         'F20 (exit status 0) and F28 (a refused duplicate insert_symbol corrupted the name table). Once-only execution under '
-         'concurrent importers is not machine checked.',
+         'F20 (exit status 0) and F28 (a refused duplicate insert_symbol corrupted the name table). C17.K4 Fiber::complete for a '
+         'child of a fiber that sleeps in an import: only the module fiber may resume the importer - KNOWN FINDING F30 (any child '
+         'launched before the import resumes it; replayed natively). Other scheduling histories of concurrent importers are not '
+         'machine checked.',
     note='Trusted: rustc MIR printer, mirsym, abstract identities for modules / strings (paths compare by identity: interning is '
          'C09), laythe Map over the association-list hash map model, Z3. Assumes the working directory exists.',
     ref='§4 C17')
@@ -240,7 +243,8 @@ CLAIMED['C16'] = dict(
          'from MIR on arguments constrained only by its signature and receiver class: every unchecked cast is justified, to_num / '
          'to_obj are applied only to values of that kind, the argument slice is indexed within the admitted count (found and fixed '
          'F24 zip / chain, F25 collect / isA?, F26 RegExp pattern field); C16.K3 chan(n) for every value (F23 capacity overflow); '
-         'exit requests through native callbacks (C18.K2, F22). What the native bodies compute, the natives not encoded (string, io, '
+         'exit requests through native callbacks (C18.K2, F22); fiber creation for any max_slots (C06.K2 fiber_new / fiber_split, F29: '
+         'a 300-element list literal panicked the host). What the native bodies compute, the natives not encoded (string, io, '
          'math, iterator constructors) and errors raised while another error is handled are not machine checked.',
     note='Trusted: rustc MIR printer, mirsym, abstract Vm state (vmabs.py), ParameterKind::is_valid summarised per (parameter, '
          'argument) pair with Object accepting everything, native bodies summarised by their result, Z3.',
